@@ -277,7 +277,7 @@ _EXTRA = {
     'R83': (['C03', 'C05', 'C12', 'C20'], 'R83: _find_next skips POP data, stops at its first hit, and splits the pending data with the index of the loop that found the hit.'),
     'R84': (['C04'], 'R84: surface.alignments / role_alignments scan the whole marker list of a triple.'),
     'R85': (['C10', 'C20'], 'R85: the letter that becomes the variable prefix is chosen with str.isalpha (or a one-character pattern whose language is exactly that set).'),
-    'R58': (['C05', 'C12'], 'R58: rearrange(attributes_first=True) tells attributes from edges with the variables of all nodes of the tree (t.nodes()), the top included.'),
+    'R58': (['C05', 'C12', 'C20'], 'R58: rearrange(attributes_first=True) tells attributes from edges with the variables of all nodes of the tree (t.nodes()), the top included.'),
     'R14': (['C10', 'C13'], 'R14 (E4): nodes(), format, interpret and the other read-only calls on a tree do not write to it (a cache written by a query goes stale when the tree is rearranged, and relabelling then numbers the old order).'),
     'R14r': (['C17', 'C13', 'C20'], 'R14r (E4): the tree returned by canonicalize_roles / configure / reconfigure / parse contains no list object of an argument (the points-to closure of the result is disjoint from the parameters\' lists), so the in-place operations on the result cannot reach the original.'),
     'R88': (['C01', 'C02', 'C03', 'C09', 'C11', 'C12', 'C15', 'C16', 'C20'], 'R88: a constructor stores what it is given (reaching definitions: the parameter itself reaches self.x) and every Graph / Tree built from a graph or tree argument is given that argument\'s metadata.'),
@@ -390,13 +390,17 @@ _EXTRA = {
     'R134': (['C03', 'C02', 'C04', 'C20'],
              'R134: in _process_epigraph the target of a branch is re-bound to formatted text only inside the loop over its markers (or with None excluded): a target without '
              'markers - in particular a missing one - stays what it is.'),
-    'R135': (['C11', 'C12'],
+    'R135': (['C11', 'C12', 'C04', 'C02'],
              'R135: Model.reify writes, and Model.dereify recognises, the instance triple of a relation node with the constant CONCEPT_ROLE - the same value that every '
              'comparison in transform / layout / graph uses (counted on each run); a model setting in its place is reported.'),
     'R8e': (['C03'], 'R8e (sibling): the token patterns recognise the documented classes; a quoted string with escaped quotes is one STRING token - what encode writes must be readable again.'),
     'R79': (['C17'], 'R79 (sibling): reify_attributes selects the attribute triples by the VALUE of the role (== / !=), never by the identity of the string object (`is`), which differs between processes.'),
     'R136': (['C05', 'C20'],
              'R136: in _rearrange every path from entry to exit passes the loop that contains the recursive call (CFG path search): no early return cuts a subtree off.'),
+    'R139': (['C10', 'C05', 'C20', 'C12', 'C02', 'C07'],
+             'R139: for every loop, a name set to the constant True in the body, initialised False before the loop and read after it, must not also be assigned a computed value in the body on a path that follows the raise through the loop head (CFG path search).'),
+    'R138': (['C04', 'C14', 'C02', 'C16'],
+             'R138: reaching definitions - the role handed to is_role_inverted / canonicalize_role / has_role is never the raw loop variable of a loop over tree branches; it has passed _process_role or partition("~").'),
     'R137': (['C11', 'C12'],
              'R137: in _dereify_agenda the exchange of the two relations of a collapsed node is guarded by get_pushed_variable(g, second) == var (branch facts), not by appears_inverted.'),
     'R108': (['C03', 'C05', 'C12', 'C20'], 'R108: in configure no path leads from the _find_next call back to the loop head without the list of passed-over data having been used.'),
